@@ -150,6 +150,10 @@ func (env *Env) typeOfExpr(e ast.Expr) types.Type {
 		sfail("unknown type %v", x)
 	case *ast.StarExpr:
 		return types.NewPointer(env.typeOfExpr(x.X))
+	case *ast.IndexExpr:
+		return env.instantiate(x.X, []ast.Expr{x.Index})
+	case *ast.IndexListExpr:
+		return env.instantiate(x.X, x.Indices)
 	case *ast.ArrayType:
 		if x.Len == nil {
 			return types.NewSlice(env.typeOfExpr(x.Elt))
@@ -161,6 +165,20 @@ func (env *Env) typeOfExpr(e ast.Expr) types.Type {
 	}
 	sfail("unsupported type expression")
 	return nil
+}
+
+// instantiate: a generic named type applied to type arguments, e.g. orderedmap.Map[string, *v3.PathItem]
+func (env *Env) instantiate(base ast.Expr, args []ast.Expr) types.Type {
+	g := env.typeOfExpr(base)
+	var targs []types.Type
+	for _, a := range args {
+		targs = append(targs, env.typeOfExpr(a))
+	}
+	t, err := types.Instantiate(types.NewContext(), g, targs, false)
+	if err != nil {
+		sfail("cannot instantiate %v: %v", g, err)
+	}
+	return t
 }
 
 func (env *Env) findImport(name string) *types.Package {
